@@ -64,6 +64,11 @@ def scaled_families(n):
         ("nested-braces", "@a{k, t = " + "{" * n + "x" + "}" * n + "}"),
         ("nested-braces-in-comment", "@comment{" + "{" * n + "x" + "}" * n + "}"),
         ("nested-unclosed", "@a{k, t = " + "{" * n),
+        ("nested-braces-in-preamble", "@preamble{" + "{" * n + "x" + "}" * n + "}"),
+        ("nested-braces-in-string", "@string{s = " + "{" * n + "x" + "}" * n + "}"),
+        ("nested-unclosed-in-comment", "@comment{jabref-meta: " + "{" * n),
+        ("nested-groups-in-quotes", '@a{k, t = "' + "{" * n + "x" + "}" * n + '"}'),
+        ("n-sibling-groups", "@comment{" + "{a}" * n + "}"),
         ("n-entries", "".join(entry % i for i in range(n))),
         ("n-duplicate-entries", (entry % 7) * n),
         ("entry-with-n-fields", "@a{k,\n" + "".join("  f%d = {v},\n" % i for i in range(n)) + "}"),
